@@ -422,7 +422,7 @@ def systems(tier):
 def vacuity(results):
     errs = []
     for r in results:
-        if r.name.startswith("slice-") and r.name != "slice-E-tabs-bom":
+        if r.name.startswith("slice-") and r.name not in ("slice-E-tabs-bom", "slice-I-unicode-digits"):
             if r.stats.get("in_subset", 0) < 10:
                 errs.append(f"{r.name}: fewer than 10 strings inside the YAML subset (vacuous agreement clause)")
         if r.name == "grammar" and r.stats.get("in_subset", 0) < 1000:
